@@ -17,7 +17,7 @@ EXPLANATION = (
     "with advancing the counter by its length, and a re-run returns all_results[counter:]; S6 simulator stop: "
     "StopEvent is pushed and processed before the CompleteEvent, the stop handler removes the trial's later events with a "
     "keep-filter of the right polarity; S7 the tabular backend resumes strictly after the paused level; S8 one copied "
-    "log row per delivery. NOT decided: batching of real worker output between polls; order of equal time stamps.")
+    "log row per delivery. S7 also: the elapsed-time offset is subtracted from every kept result after the scan. NOT decided: batching of real worker output between polls; order of equal time stamps.")
 
 FLOOR = {"S1": 3, "S2": 2, "S3": 2, "S4": 1, "S5": 4, "S6": 4, "S7": 3, "S8": 3}
 
